@@ -55,7 +55,10 @@ pub fn valid_stream(rng: &mut Rng, nprog: usize, pes_per_stream: usize, repeats:
         let mut q = Mux::new(); q.set_cc(*pid, rng.below(16) as u8);
         let mut list = vec![];
         for _ in 0..pes_per_stream {
-            let sid = match rng.below(8) { 0 => 0xbd, 1 => 0xbe, 2 => 0xfd, 3 => 0xc0 + rng.below(32) as u8, _ => 0xe0 + rng.below(16) as u8 };
+            let sid = match rng.below(10) { 0 => 0xbd, 1 => 0xbe, 2 => 0xfd, 3 => 0xc0 + rng.below(32) as u8,
+                // every stream id without the optional header (Table 2-21), and the remaining ids that do have one
+                4 => *rng.pick(&[0xbcu8, 0xbf, 0xf0, 0xf1, 0xf2, 0xf8, 0xff]), 5 => *rng.pick(&[0xf3u8, 0xf4, 0xf5, 0xf6, 0xf7, 0xf9, 0xfa, 0xfb, 0xfc, 0xfe]),
+                _ => 0xe0 + rng.below(16) as u8 };
             let payload = pes_payload(rng);
             let spec = PesSpec { stream_id: sid, pts: if rng.chance(3, 4) { Some(rng.below(1 << 33)) } else { None }, dts: if rng.chance(1, 3) { Some(rng.below(1 << 33)) } else { None },
                                  extra_hdr: if rng.chance(1, 4) { rng.range(1, 6) as usize } else { 0 }, bounded: rng.chance(1, 2), payload: payload.clone(),
